@@ -686,6 +686,55 @@ Proof.
       split; [intros _; exact HO'|]. exists rounds. split; [exact R1|exact R4].
 Qed.
 
+(* the boundary half of the invariant: between calls nothing is queued for the remotes, and every local player
+   holds exactly the frames up to the last one sent *)
+Definition OB (p : p2p) (gs : list ghost) : Prop :=
+  ps_remotes p <> [] -> local_handles p <> [] ->
+  ps_outgoing p = [] /\
+  forall h gh, In h (local_handles p) -> nth_error gs (Z.to_nat h) = Some gh -> hlen (fst gh) = ps_last_sent_out p + 1.
+Definition OIb (p : p2p) (gs : list ghost) : Prop := OIg p gs /\ OB p gs.
+
+Lemma OB_same : forall p p' gs gs', OB p gs -> ps_outgoing p' = ps_outgoing p -> ps_last_sent_out p' = ps_last_sent_out p ->
+  local_handles p' = local_handles p -> (ps_remotes p' <> [] -> ps_remotes p <> []) ->
+  (forall h, In h (local_handles p) ->
+     option_map fst (nth_error gs' (Z.to_nat h)) = option_map fst (nth_error gs (Z.to_nat h))) -> OB p' gs'.
+Proof.
+  intros p p' gs gs' H E1 E2 E3 E4 E5 Hr Hl. rewrite E3 in Hl. destruct (H (E4 Hr) Hl) as (A & B).
+  rewrite E1, E2, E3. split; [exact A|]. intros h gh' Hin Hg. pose proof (E5 h Hin) as X. unfold ghost in *. rewrite Hg in X.
+  cbn [option_map] in X. destruct (nth_error gs (Z.to_nat h)) as [gh|] eqn:G0; [|discriminate]. cbn [option_map] in X.
+  injection X as X. rewrite X. exact (B h gh Hin G0).
+Qed.
+
+Lemma map_fst_opt : forall (gs gs' : list ghost) n, map fst gs' = map fst gs ->
+  option_map fst (nth_error gs' n) = option_map fst (nth_error gs n).
+Proof.
+  intros gs gs' n E. pose proof (f_equal (fun l => nth_error l n) E) as X. cbv beta in X. unfold ghost in *.
+  rewrite !nth_error_map in X. exact X.
+Qed.
+
+Lemma OIb_same_local : forall p p' gs gs', OIb p gs -> ps_outgoing p' = ps_outgoing p ->
+  ps_last_sent_out p' = ps_last_sent_out p -> local_handles p' = local_handles p ->
+  (ps_remotes p' <> [] -> ps_remotes p <> []) ->
+  (forall h, In h (local_handles p) ->
+     option_map fst (nth_error gs' (Z.to_nat h)) = option_map fst (nth_error gs (Z.to_nat h))) -> OIb p' gs'.
+Proof.
+  intros p p' gs gs' (HO & HB) E1 E2 E3 E4 E5. split.
+  - intros Hr. exact (OI_same_local p p' gs gs' (HO (E4 Hr)) E1 E2 E3 E5).
+  - exact (OB_same p p' gs gs' HB E1 E2 E3 E4 E5).
+Qed.
+
+Lemma send_ready_outgoing_done : forall p o p' o' gs H,
+  send_ready_outgoing p o = Ok (p', o') -> OIg p gs ->
+  (forall h, In h (local_handles p) -> exists gh, nth_error gs (Z.to_nat h) = Some gh) ->
+  (forall h gh, In h (local_handles p) -> nth_error gs (Z.to_nat h) = Some gh -> hlen (fst gh) = H) ->
+  ps_remotes p <> [] -> local_handles p <> [] -> ps_outgoing p' = [] /\ ps_last_sent_out p' = H - 1.
+Proof.
+  intros p o p' o' gs H E HO Hgs Hall Hr Hl. unfold send_ready_outgoing in E.
+  destruct (ps_remotes p) as [|e0 rest] eqn:Er; [congruence|].
+  destruct (local_handles p) as [|h0 hs] eqn:El; [congruence|]. rewrite <- El in E, Hgs, Hall, Hl.
+  apply (send_ready_go_done _ _ _ _ _ gs H E (HO ltac:(rewrite Er; discriminate)) Hl Hgs); [lia|exact Hall].
+Qed.
+
 (* the invariant between the game's history and the session, at call boundaries *)
 Definition TI (p : p2p) (gs : list ghost) (G : ghist) : Prop :=
   glen G = s_current (ps_sync p) /\
@@ -742,7 +791,7 @@ Lemma advance_rollback_timeline_gen : forall sp p gs w d o p' o' G,
     Forall (truthful_lt (s_current (ps_sync p')) gs') (adv_frames G R) /\
     exists cf, confirmed_frame p = Ok cf /\ o_spec_sends o' = o_spec_sends o ++ spec_sent p gs cf /\
                ps_next_spec p' = next_spec_after p cf /\ ps_spectators p' = ps_spectators p /\
-               (OIg p gs -> OIg p' gs' /\ exists rounds, o_remote_sends o' = o_remote_sends o ++ rounds /\
+               (OIg p gs -> OIg p' gs' /\ OB p' gs' /\ exists rounds, o_remote_sends o' = o_remote_sends o ++ rounds /\
                                                          rounds_ok (local_handles p) gs' rounds).
 Proof.
   intros sp p gs w d o p' o' G E HQS Hbnd Hpend Hroll (HG & HGI & HPN).
@@ -798,7 +847,7 @@ Proof.
   pose proof (QS_out_only _ _ _ _ _ _ HQS4 O5) as HQS5.
   assert (Hs5 : ps_sync p5 = ps_sync p4) by (rewrite O5; reflexivity).
   (* what goes out to the remote players *)
-  assert (HOUT : OIg p gs -> OIg p5 gs4 /\ exists rounds, o_remote_sends o5 = o_remote_sends o ++ rounds /\
+  assert (HOUT : OIg p gs -> OIg p5 gs4 /\ OB p5 gs4 /\ exists rounds, o_remote_sends o5 = o_remote_sends o ++ rounds /\
                                                           rounds_ok (local_handles p) gs4 rounds).
   { intros HO.
     assert (HO3 : OIg p3 gs3).
@@ -806,7 +855,22 @@ Proof.
       eapply OI_same; [exact (HO Hr)| | |exact Hlh3|exact Hmap3]; unfold p3; rewrite Hp2, Hshape; reflexivity. }
     pose proof (local_handles_rest _ _ Hrest4) as Hlh4. rewrite Hlh3 in Hlh4.
     destruct (send_ready_outgoing_out p4 o2 p5 o5 gs4 E5 (HO4 HO3) (QS_local_gs _ _ _ _ _ HQS4)) as (HO5 & rounds & Q1 & Q2).
-    split; [exact HO5|]. exists rounds. rewrite Hlh4 in Q2. split; [|exact Q2].
+    split; [exact HO5|]. split.
+    { (* everything registered has been sent *)
+      intros Hr5 Hl5.
+      assert (Hr4 : ps_remotes p4 <> []) by (rewrite O5 in Hr5; exact Hr5).
+      assert (Hl4 : local_handles p4 <> []) by (rewrite O5 in Hl5; exact Hl5).
+      assert (Hall4 : forall h gh, In h (local_handles p4) -> nth_error gs4 (Z.to_nat h) = Some gh -> hlen (fst gh) = s_current (ps_sync p3) + d + 1).
+      { intros h gh Hin Hg. rewrite (local_handles_rest _ _ Hrest4) in Hin.
+        pose proof (Hdone4 h (local_handles_ge _ _ Hin) (or_introl Hin)) as Hdn. unfold Done in Hdn.
+        pose proof (QsI_length _ _ _ _ (qs_qs _ _ _ _ HQS4)) as Hl44.
+        destruct (nth_error_some_len (s_queues (ps_sync p4)) gs4 (Z.to_nat h) gh Hl44 Hg) as (q & Hq).
+        destruct (Hdn q gh Hq Hg) as (X & _). exact X. }
+      destruct (send_ready_outgoing_done p4 o2 p5 o5 gs4 _ E5 (HO4 HO3) (QS_local_gs _ _ _ _ _ HQS4) Hall4 Hr4 Hl4) as (Y1 & Y2).
+      split; [exact Y1|]. intros h gh Hin Hg. rewrite Y2.
+      assert (Hin4 : In h (local_handles p4)) by (rewrite O5 in Hin; exact Hin).
+      rewrite (Hall4 h gh Hin4 Hg). lia. }
+    exists rounds. rewrite Hlh4 in Q2. split; [|exact Q2].
     rewrite Q1, (spec_sends_rsends _ _ _ _ _ Es), (handle_rollback_rsends _ _ _ _ _ Er). reflexivity. }
   assert (Ho5 : o_requests o5 = o_requests o1 /\ o_spec_sends o5 = o_spec_sends o ++ spec_sent p gs cf).
   { destruct (send_ready_outgoing_frame _ _ _ _ E5) as (_ & _ & X1 & X2). split; [congruence|]. rewrite X2, Hsent, Hspec_o1. reflexivity. }
@@ -879,8 +943,9 @@ Proof.
     + intros h pi X. discriminate X.
     + eapply spec_ok_grow; [exact Hsok5|reflexivity|reflexivity|cbn; rewrite Hs5; reflexivity|apply grow_refl].
   - split; [|split; [exact Hhist|split; [cbn [with_sync with_pending ps_kinds]; congruence|split; [|exists cf; split; [exact Ecf|split; [cbn [add_req o_spec_sends]; exact Hsp5|split; [cbn; exact Hns5|split; [cbn; exact Hss5|]]]]]]]].
-    3:{ intros HO. destruct (HOUT HO) as (HO5 & rounds & Q1 & Q2). split; [|exists rounds; split; [exact Q1|exact Q2]].
-        intros Hr. eapply OI_same; [exact (HO5 Hr)|reflexivity|reflexivity|reflexivity|reflexivity]. }
+    3:{ intros HO. destruct (HOUT HO) as (HO5 & HB5 & rounds & Q1 & Q2). split; [|split; [|exists rounds; split; [exact Q1|exact Q2]]].
+        - intros Hr. eapply OI_same; [exact (HO5 Hr)|reflexivity|reflexivity|reflexivity|reflexivity].
+        - eapply OB_same; [exact HB5|reflexivity|reflexivity|reflexivity|intros X; exact X|reflexivity]. }
     2:{ cbn [with_sync with_pending ps_sync advance_frame with_current with_queues s_current]. rewrite Hc4.
         rewrite adv_frames_app. cbn [adv_frames]. apply Forall_app. split.
         - eapply Forall_impl; [|exact HTR4]. intros fi (Hlt & Ht). split; [lia|exact Ht].
@@ -919,7 +984,7 @@ Lemma advance_rollback_timeline : forall p gs g w d o p' o' G,
     Forall (truthful_lt (s_current (ps_sync p')) gs') (adv_frames G R) /\
     exists cf, confirmed_frame p = Ok cf /\ o_spec_sends o' = o_spec_sends o ++ spec_sent p gs cf /\
                ps_next_spec p' = next_spec_after p cf /\ ps_spectators p' = ps_spectators p /\
-               (OIg p gs -> OIg p' gs' /\ exists rounds, o_remote_sends o' = o_remote_sends o ++ rounds /\
+               (OIg p gs -> OIg p' gs' /\ OB p' gs' /\ exists rounds, o_remote_sends o' = o_remote_sends o ++ rounds /\
                                                          rounds_ok (local_handles p) gs' rounds).
 Proof.
   intros p gs g w d o p' o' G E HQS HJI Hw1p Hbnd Hpend HTI.
@@ -1026,7 +1091,7 @@ Qed.
 
 (* what one advance_frame sends to the remote players *)
 Definition sends_adv (p : p2p) (gs gs' : list ghost) (p' : p2p) (o : pout) : Prop :=
-  OIg p gs -> OIg p' gs' /\ rounds_ok (local_handles p) gs' (o_remote_sends o).
+  OIb p gs -> OIb p' gs' /\ rounds_ok (local_handles p) gs' (o_remote_sends o).
 
 Lemma advance_timeline : forall p gs g w d p' o r G,
   advance predict p = Ok (p', o, r) ->
@@ -1079,9 +1144,9 @@ Proof.
   { intros h Hin. rewrite Hpe1. apply Hpend. rewrite <- Hlh1. exact Hin. }
   exists gs'. split; [exact HQS'|]. split; [rewrite Ho, replay_hist_app, Hrep1; exact HTI'|]. split; [rewrite <- Hpe1, <- Hlh1; exact Hh'|]. split; [congruence|].
   split; [|split; [rewrite Ho, adv_frames_app, Hadv1, Hrep1; exact HTR'|]].
-  2:{ intros HO. destruct Hout' as (HO' & rounds & Q1 & Q2).
+  2:{ intros (HO & _). destruct Hout' as (HO' & HB' & rounds & Q1 & Q2).
       { intros Hr1. rewrite Hrm1 in Hr1. eapply OI_same; [exact (HO Hr1)|exact Hog1|exact Hls1|exact Hlh1|reflexivity]. }
-      split; [exact HO'|]. rewrite Q1, Hrs1. cbn [app]. rewrite <- Hlh1. exact Q2. }
+      split; [split; [exact HO'|exact HB']|]. rewrite Q1, Hrs1. cbn [app]. rewrite <- Hlh1. exact Q2. }
   apply (spec_sent_step p gs gs' cf); [exact Hsok| | |congruence| |].
   - apply (cf_bound _ w d p gs cf HQS). unfold confirmed_frame in *. rewrite <- Hst1. exact Ecf.
   - apply (hist_step_grows_gs _ _ _ _ _ Hh').
@@ -1193,15 +1258,7 @@ Qed.
    every operation inside the space succeeds and keeps CI (CI_step), and advance_frame keeps the timeline
    invariant TI (CI_adv). *)
 (* ---------- what a run sends to the remote players ---------- *)
-Lemma OI_same_local : forall p p' gs gs', OI p gs -> ps_outgoing p' = ps_outgoing p ->
-  ps_last_sent_out p' = ps_last_sent_out p -> local_handles p' = local_handles p ->
-  (forall h gh', In h (local_handles p) -> nth_error gs' (Z.to_nat h) = Some gh' ->
-     exists gh, nth_error gs (Z.to_nat h) = Some gh /\ fst gh = fst gh') -> OI p' gs'.
-Proof.
-  intros p p' gs gs' [A B C D] E1 E2 E3 E4.
-  constructor; unfold out_entry in *; rewrite ?E1, ?E2, ?E3; try assumption.
-  intros h gh' Hin Hg. destruct (E4 h gh' Hin Hg) as (gh & G0 & G1). rewrite <- G1. exact (D h gh Hin G0).
-Qed.
+
 
 Lemma ev_input_out : forall p pl f v p', ev_input p pl f v = Ok p' ->
   ps_outgoing p' = ps_outgoing p /\ ps_last_sent_out p' = ps_last_sent_out p /\ local_handles p' = local_handles p /\
@@ -1244,6 +1301,13 @@ Proof.
   - intros f m H. cbn in H. discriminate.
   - intros h gh _ Hg. apply nth_error_In, repeat_spec in Hg. subst gh. cbn [fst]. split; [cbn; unfold hlen, NULL; cbn; lia|].
     intros f Hf. cbn in Hf. assert ((f <? hlen []) = false) as -> by (unfold hlen, NULL in *; cbn in *; lia). unfold out_entry. cbn. reflexivity.
+  - intros f m H. cbn in H. discriminate.
+Qed.
+
+Lemma OB_start : forall sp n w d kinds eps nspec, OB (session_start n w sp d kinds eps nspec) (repeat ([], 0) (Z.to_nat n)).
+Proof.
+  intros sp n w d kinds eps nspec _ _. split; [reflexivity|].
+  intros h gh _ Hg. apply nth_error_In, repeat_spec in Hg. subst gh. reflexivity.
 Qed.
 
 (* an arriving remote input is labelled with the frame after the last one held for that player *)
@@ -1727,22 +1791,25 @@ Proof.
     destruct o as [h v|pl f v|ep st|hs|h|h dd|]; cbn [op_ok] in Hok; try discriminate; cbn [op_hist] in Hop; cbn [sstep] in Es.
     + subst gs'. unfold api_add_local_input in Es. intros HO.
       destruct (kind_at p h) as [[| |]|]; injection Es as <-; cbn [sr_state sr_out out0 o_remote_sends];
-        (split; [intros Hr; eapply OI_same; [exact (HO Hr)|reflexivity|reflexivity|reflexivity|reflexivity]|constructor]).
+        (split; [apply (OIb_same_local p _ gs gs HO); [reflexivity|reflexivity|reflexivity|intros X; exact X|reflexivity]|constructor]).
     + apply res_bind_ok in Es. destruct Es as (p' & Ee & Es). injection Es as <-. cbn [sr_state sr_out out0 o_remote_sends].
       destruct (ev_input_out _ _ _ _ _ Ee) as (X1 & X2 & X3 & X4).
-      destruct Hop as (hist & low & Eg & ->). intros HO. split; [|constructor]. intros Hr. rewrite X4 in Hr.
-      apply (OI_same_local p p' gs _ (HO Hr) X1 X2 X3).
-      intros h0 gh' Hin Hn.
+      destruct Hop as (hist & low & Eg & ->). intros HO. split; [|constructor].
+      apply (OIb_same_local p p' gs _ HO X1 X2 X3); [rewrite X4; intros X; exact X|].
+      intros h0 Hin.
       apply (local_handles_spec p h0 (QS_nplayers _ _ _ _ _ HQS)) in Hin. destruct Hin as (Hr0 & Hk0).
       apply andb_prop in Hok. destruct Hok as [Hok _]. apply andb_prop in Hok. destruct Hok as [Hok _].
       apply andb_prop in Hok. destruct Hok as [Hok H3]. apply andb_prop in Hok. destruct Hok as [H1 H2].
       destruct (nth_error (ps_kinds p) (Z.to_nat pl)) as [[|e|e]|] eqn:Ek; try discriminate.
       assert (Z.to_nat pl <> Z.to_nat h0) by (intros Eq; rewrite Eq in Ek; congruence).
-      rewrite nth_error_updz_other in Hn by assumption. exists gh'. split; [exact Hn|reflexivity].
+      rewrite nth_error_updz_other by assumption. reflexivity.
     + injection Es as <-. subst gs'. cbn [sr_state sr_out out0 o_remote_sends]. intros HO. split; [|constructor].
-      intros Hr. assert (Hr0 : ps_remotes p <> []).
-      { intros E0. apply Hr. unfold gossip. rewrite E0. destruct (Z.to_nat ep); cbn [nth_error]; exact E0. }
-      eapply OI_same; [exact (HO Hr0)| | | |reflexivity]; unfold gossip; destruct (nth_error (ps_remotes p) (Z.to_nat ep)); reflexivity.
+      apply (OIb_same_local p _ gs gs HO).
+      * unfold gossip; destruct (nth_error (ps_remotes p) (Z.to_nat ep)); reflexivity.
+      * unfold gossip; destruct (nth_error (ps_remotes p) (Z.to_nat ep)); reflexivity.
+      * unfold gossip; destruct (nth_error (ps_remotes p) (Z.to_nat ep)); reflexivity.
+      * intros Hr E0. apply Hr. unfold gossip. rewrite E0. destruct (Z.to_nat ep); cbn [nth_error]; exact E0.
+      * intros h0 _. reflexivity.
 Qed.
 
 (* all the rounds of inputs a run hands to the remote players *)
@@ -1753,10 +1820,10 @@ Definition all_sends (outs : list (pout * apires)) : list (list (Z * pinput)) :=
    with, for every local player, the input the session holds (and simulates) for that player and frame; every
    remote input (player, frame, value) that arrived is held as that player's input for that frame *)
 Theorem run_sends_g : forall ops p gs g w d,
-  QSg sp w d p gs -> CI w p g -> TI p gs (g_hist g) -> OIg p gs ->
+  QSg sp w d p gs -> CI w p g -> TI p gs (g_hist g) -> OIb p gs ->
   srun_in predict p ops = Err \/
   exists p' outs gs' g', srun_in predict p ops = Ok (p', outs) /\ exec_outs w g outs = Some g' /\
-    QSg sp w d p' gs' /\ CI w p' g' /\ TI p' gs' (g_hist g') /\ OIg p' gs' /\ grows_gs gs gs' /\
+    QSg sp w d p' gs' /\ CI w p' g' /\ TI p' gs' (g_hist g') /\ OIb p' gs' /\ grows_gs gs gs' /\
     ps_kinds p' = ps_kinds p /\ rounds_ok (local_handles p) gs' (all_sends outs) /\
     (forall pl f v, In (SRemote pl f v) ops ->
       exists gh, nth_error gs' (Z.to_nat pl) = Some gh /\ 0 <= f < hlen (fst gh) /\ hval (fst gh) f = v) /\
@@ -1842,15 +1909,15 @@ Theorem sends_and_receipts_g : forall ops n w d kinds eps nspec p outs,
       exists gh, nth_error gs (Z.to_nat pl) = Some gh /\ 0 <= f < hlen (fst gh) /\ hval (fst gh) f = v) /\
     (forall pl e gh f, 0 <= pl -> nth_error kinds (Z.to_nat pl) = Some (KRemote e) ->
       nth_error gs (Z.to_nat pl) = Some gh -> 0 <= f < hlen (fst gh) -> In (SRemote pl f (hval (fst gh) f)) ops) /\
-    ps_kinds p = kinds.
+    ps_kinds p = kinds /\ OB p gs.
 Proof using All.
   intros ops n w d kinds eps nspec p outs Hw Hd Hcap Hn Hlen Hpl H.
   pose proof (QS_start_gen sp n w d kinds eps nspec Hw Hd Hcap Hn Hlen Hpl) as HQ0.
   destruct (run_sends_g ops _ _ (game0 w) w d HQ0 (CI_start n w d kinds eps nspec Hw) (TI_start_g n w d kinds eps nspec)
-              (OI_start sp n w d kinds eps nspec))
-    as [E|(p' & outs' & gs & g & E1 & Ex & HQS & HJ & (HG & HGI & _) & _ & _ & Hk & Hr & Hdl & Hcv)]; [congruence|].
+              (conj (OI_start sp n w d kinds eps nspec) (OB_start sp n w d kinds eps nspec)))
+    as [E|(p' & outs' & gs & g & E1 & Ex & HQS & HJ & (HG & HGI & _) & (_ & HB) & _ & Hk & Hr & Hdl & Hcv)]; [congruence|].
   rewrite H in E1. injection E1 as <- <-.
-  exists g, gs. split; [exact Ex|]. split; [exact HQS|]. split; [exact (CI_frame _ _ _ HJ)|]. split; [|split; [|split; [exact Hdl|split; [|exact Hk]]]].
+  exists g, gs. split; [exact Ex|]. split; [exact HQS|]. split; [exact (CI_frame _ _ _ HJ)|]. split; [|split; [|split; [exact Hdl|split; [|split; [exact Hk|exact HB]]]]].
   3:{ intros pl e gh f Hpl0 Hkp Ag Hf.
       assert (Hl0 : (Z.to_nat pl < Z.to_nat n)%nat).
       { assert (nth_error kinds (Z.to_nat pl) <> None) as X by congruence. apply nth_error_Some in X. lia. }
